@@ -2,7 +2,7 @@ SPECIFICATION TraceSpec
 CONSTANTS Keys = {0, 1, 2, 3}
  Vals = {1, 2, 3}
  MaxTs = 6
- KeepTs = FALSE
+ KeepTs = TRUE
  Thresh = 16
 INVARIANT HashConsistent LookupIsModel ScanIsModel SortedByTs
 CHECK_DEADLOCK FALSE
